@@ -34,7 +34,8 @@ func init() {
 
 func c01Specs(c *run.Ctx) (named []spec.Spec, subsets []spec.Spec) {
 	named = specsByName("strict", "bpbr", "ugc", "bpbr-spaces", "bpbr-comments", "pattern", "pattern-bare",
-		"attrs", "rawtext", "foreign", "skipmod", "cmd-email", "everything-named", "styles", "media", "iframe-attrs-only")
+		"attrs", "rawtext", "foreign", "skipmod", "cmd-email", "everything-named", "styles", "media", "iframe-attrs-only",
+		"pattern-std-names", "ugc-spaces-comments", "literal-bp")
 	if c.Quick() {
 		subsets = subsetSpecs(2)
 	} else {
@@ -163,6 +164,9 @@ func runC01(c *run.Ctx) {
 		Seqs(c, fragCore, 4, 4, func(in []byte, _ []int) { eval(nb, in, true) })
 		Seqs(c, fragCore, 5, 5, func(in []byte, _ []int) { eval(nb[:6], in, false) })
 	}
+	// layer 2b: core + exotic syntax alphabet, k<=3, named policies (k<=2 with DOM)
+	SeqsS(c, "exotic", fragCoreExotic(), 0, 2, func(in []byte, _ []int) { eval(nb, in, true) })
+	SeqsS(c, "exotic", fragCoreExotic(), 3, 3, func(in []byte, _ []int) { eval(nb[:6], in, false) })
 	// layer 3: byte-exhaustive
 	nbytes := 5
 	if !c.Quick() {
